@@ -154,6 +154,7 @@ class Ref:
         self.n = len(text)
         self.seeds = {}      # (rule, pos) -> result for left recursion
         self.depth = 0
+        self.pruned = False  # a commit was used: some alternative/ending was suppressed because of a cut
 
     # ---------------- lexical layer ----------------
     def skipre(self, rx, p):
@@ -249,7 +250,9 @@ class Ref:
                 try:
                     q, it, en = self.ev(x, p, s2)
                 except Fail as f:
-                    if f.committed or s2.cut: raise Fail(False)   # committed: choice fails; no leak
+                    if f.committed or s2.cut:   # committed: choice fails; no leak
+                        self.pruned = True
+                        raise Fail(False)
                     continue
                 defs = self.defaults(x)
                 merge_env_defaults(en, defs)
@@ -260,7 +263,9 @@ class Ref:
             try:
                 return self.ev(e[1], p, s2)
             except Fail as f:
-                if f.committed or s2.cut: raise Fail(False)
+                if f.committed or s2.cut:
+                    self.pruned = True
+                    raise Fail(False)
                 return p, [], {}
         if k in ('rep', 'rep1'):
             return self.closure(e[1], None, p, positive=(k == 'rep1'), keepsep=False)
@@ -320,19 +325,27 @@ class Ref:
                 raise Fail(sc.cut or f.committed)
         raise ValueError(k)
 
-    def closure(self, body, sep, p, positive, keepsep):
+    def closure(self, body, sep, p, positive, keepsep, first_scope=None):
         """{x} = B -> x B | eps ; s%{e}+ = e {s ~ e} ; s%{e} = s%{e}+ | {}"""
         if sep is not None and not positive:
+            # option 1 of the implicit choice  s%{e}+ | {} : a cut passed by the first element commits that option
+            s0 = Scope()
             try:
-                return self.closure(body, sep, p, True, keepsep)
-            except Fail:
+                return self.closure(body, sep, p, True, keepsep, first_scope=s0)
+            except Fail as f:
+                if f.committed or s0.cut:
+                    self.pruned = True
+                    raise Fail(False)
                 return p, [[]], {}
         out, env = [], {}
         count = 0
         if sep is not None or positive:
-            # mandatory first element, parsed in the enclosing scope of the construct
-            s1 = Scope()
-            q, it, en = self.ev(body, p, s1)
+            # mandatory first element: an iteration of its own (its cut does not leak to the enclosing option)
+            s1 = first_scope if first_scope is not None else Scope()
+            try:
+                q, it, en = self.ev(body, p, s1)
+            except Fail as f:
+                raise Fail(bool(first_scope is not None and (f.committed or s1.cut)))
             out.append(items_value(it)); merge_env(env, en); p = q; count = 1
         while True:
             s2 = Scope()
@@ -345,6 +358,7 @@ class Ref:
                 q, it, en = self.ev(body, q, s2)
             except Fail as f:
                 if f.committed or s2.cut:
+                    self.pruned = True
                     raise Fail(False)
                 break
             if q == p and count > 0:
